@@ -356,6 +356,53 @@ theorem fixed_point_unique (S : Matrix (Fin n) (Fin n) K) (hS : ∀ i j, 0 ≤ S
   have := (Finset.sum_eq_zero_iff_of_nonneg (fun i _ => abs_nonneg (r i - r' i))).mp hz i (mem_univ _)
   exact sub_eq_zero.mp (abs_eq_zero.mp this)
 
+/-- `r = d·S·r + b` with `S ≥ 0`, column sums ≤ 1 (sub-stochastic: empty columns allowed), `0 ≤ d < 1`, `b ≥ 0`
+⇒ `r ≥ 0` and `Σ r ≥ Σ b` -/
+theorem substoch_nonneg (S : Matrix (Fin n) (Fin n) K) (hS : ∀ i j, 0 ≤ S i j) (hcol : ∀ j, ∑ i, S i j ≤ 1)
+    (d : K) (hd0 : 0 ≤ d) (hd1 : d < 1) (b r : Fin n → K) (hb : ∀ i, 0 ≤ b i)
+    (hr : ∀ i, r i = d * ∑ j, S i j * r j + b i) :
+    (∀ i, 0 ≤ r i) ∧ ∑ i, b i ≤ ∑ i, r i := by
+  set q : Fin n → K := fun i => max (- r i) 0 with hq
+  have hq0 : ∀ i, 0 ≤ q i := fun i => le_max_right _ _
+  have hqr : ∀ i, - r i ≤ q i := fun i => le_max_left _ _
+  have hstep : ∀ i, q i ≤ d * ∑ j, S i j * q j := by
+    intro i
+    have hrhs : 0 ≤ d * ∑ j, S i j * q j :=
+      mul_nonneg hd0 (Finset.sum_nonneg (fun j _ => mul_nonneg (hS i j) (hq0 j)))
+    apply max_le _ hrhs
+    have h1 : - r i = d * ∑ j, S i j * (- r j) - b i := by
+      rw [hr i]; simp only [mul_neg, Finset.sum_neg_distrib]; ring
+    rw [h1]
+    have h2 : ∑ j, S i j * (- r j) ≤ ∑ j, S i j * q j :=
+      Finset.sum_le_sum (fun j _ => mul_le_mul_of_nonneg_left (hqr j) (hS i j))
+    have := mul_le_mul_of_nonneg_left h2 hd0
+    linarith [hb i]
+  have hsum : ∑ i, q i ≤ d * ∑ i, q i := by
+    calc ∑ i, q i ≤ ∑ i, d * ∑ j, S i j * q j := Finset.sum_le_sum (fun i _ => hstep i)
+      _ = d * ∑ j, (∑ i, S i j) * q j := by
+          rw [← Finset.mul_sum, Finset.sum_comm]
+          congr 1
+          exact Finset.sum_congr rfl (fun j _ => (Finset.sum_mul _ _ _).symm)
+      _ ≤ d * ∑ j, q j := by
+          apply mul_le_mul_of_nonneg_left _ hd0
+          exact Finset.sum_le_sum (fun j _ => by
+            calc (∑ i, S i j) * q j ≤ 1 * q j := mul_le_mul_of_nonneg_right (hcol j) (hq0 j)
+              _ = q j := one_mul _)
+  have hqn : 0 ≤ ∑ i, q i := Finset.sum_nonneg (fun i _ => hq0 i)
+  have hz : ∑ i, q i = 0 := by nlinarith
+  have hqz : ∀ i, q i = 0 := fun i =>
+    (Finset.sum_eq_zero_iff_of_nonneg (fun i _ => hq0 i)).mp hz i (mem_univ _)
+  have hnn : ∀ i, 0 ≤ r i := by
+    intro i
+    have := hqr i
+    rw [hqz i] at this
+    linarith
+  refine ⟨hnn, ?_⟩
+  calc ∑ i, b i ≤ ∑ i, (d * ∑ j, S i j * r j + b i) :=
+        Finset.sum_le_sum (fun i _ => le_add_of_nonneg_left
+          (mul_nonneg hd0 (Finset.sum_nonneg (fun j _ => mul_nonneg (hS i j) (hnn j)))))
+    _ = ∑ i, r i := Finset.sum_congr rfl (fun i _ => (hr i).symm)
+
 end perron
 
 /-! ## walks -/
